@@ -458,21 +458,41 @@ CHECKS = {
              'ChangePassphrase, ConvertToWatchingOnly, NewScopedKeyManager are outside the alphabet; fault-free database in the model. Trusted: '
              'address<->path table derived with hdkeychain, bbolt. No axioms.'),
     "C03": dict(
-        text="Executable model Addr/Mgr.v of waddrmgr key derivation and private-key availability (disk rows, account and address caches, deriveOnUnlock, "
-             "privKeyCache; symbolic HD keys in Addr/Keys.v with pub(ckd_priv k i) = ckd_pub(pub k) i by construction), parameterised by three facts regenerated "
-             "from the source. 14 closed theorems over every history from Create(seed) (invariant preserved by all 18 operations, about 4000 lines): account rows "
-             "hold m/purpose'/coin'/account' or the imported xpub; NextAddresses returns exactly indices next..next+n-1 as CKDpub(CKDpub(account key, branch), "
-             "index) in the scope's or the account's overriding format, with true path, account and internal flag; stored next indices move only by Next (+n) and "
-             "Extend (to last+1) - consecutive, no repetition; Manager.Address and DeriveFromKeyPath return children of the account key at the reported path; a "
-             "re-created wallet has the same account keys; a returned private key is never wrong; whenever unlocked, PrivKey() of any held address of an account "
-             "with a private key returns the key of its public key (fresh, cached, derived while locked, extended, loaded after restart); imported keys and scripts "
-             "come back unchanged; C03_refuted_when_false for the pre-fix extendAddresses. Tie to the code: real waddrmgr on bbolt, several seeds, the four default "
-             "scopes + a custom scope, accounts 0..3 + imported xpub accounts with and without schema override, random histories incl. restarts; every returned "
-             "address/pubkey/privkey is projected to a path by an INDEPENDENT BIP32 implementation (HMAC-SHA512 + btcec point arithmetic, standard and legacy "
-             "hardened rule) with independent address encoders, plus the direct test privKey.PubKey() == PubKey().",
-        note="Three defects found and repaired (fix: 37693ad extendAddresses, fc8a2e4 DeriveFromKeyPathCache, b387b8f last account of a new scope); replays run "
-             "first from corpus/C03. PARTIAL: keys are symbolic, so bytes and address encodings are exercised by the independent oracle on every run, not proved; "
-             "invalid BIP32 children, a watching-only root manager, ConvertToWatchingOnly and witness/taproot scripts are not modelled. Observations not raised: "
-             "addresses made by extendAddresses report MasterKeyFingerprint 0 until restart; with a leading-zero coin-type key account 0 follows the legacy hardened "
-             "rule while later accounts follow the standard one (a re-created wallet still agrees). Trusted: hdoracle with btcec group operations, extractor."),
+        text='Executable model Addr/Mgr.v of waddrmgr key derivation and private-key availability (disk rows, account and address caches, deriveOnUnlock, '
+             'privKeyCache; symbolic HD keys in Addr/Keys.v with pub(ckd_priv k i) = ckd_pub(pub k) i by construction), parameterised by facts regenerated '
+             "from the source. Keys.v models BOTH hardened-derivation rules (standard BIP32 and btcsuite's legacy DeriveNonStandard, which differ when the "
+             'parent private key has a leading zero byte - parameter lz), the WIDTH at which hdkeychain holds each parent key (full after '
+             'NewMaster/NewKeyFromString, stripped after a derivation) and the SPECIFICATION table spec_rule written from the property text and '
+             "hdkeychain's issue-172 documentation (m -> purpose' BIP32; purpose' -> coin' legacy; coin' -> account 0' legacy; later accounts BIP32 "
+             'because they come from the coin-type key read back from the file; hardened branch BIP32; hardened index legacy): a key made with the other '
+             'rule leaves the key tree (off_spec). 24 closed theorems over every history from Create(seed) (invariant preserved by all operations): '
+             'per-step rule theorems for every lz (C03_rule_purpose/coin/account0/later_account/branch/index_step), C03_other_rule_other_key, '
+             "C03_on_spec_iff_rule, C03_create_scope_keys; account rows hold m/purpose'/coin'/account' or the imported xpub; NextAddresses returns exactly "
+             "indices next..next+n-1 as CKDpub(CKDpub(account key, branch), index) in the scope's or the account's overriding format with the true path "
+             "(incl. the account row's master-key fingerprint, also for extended addresses since fix 7aeeade), account and internal flag; stored next "
+             'indices move only by Next (+n) and Extend (to last+1); Manager.Address and DeriveFromKeyPath return children of the account key at the '
+             "reported path; C03_recreated_wallet_same_addresses (two wallets from the same seed hold the same account keys and, where the scope's schema "
+             'agrees, the same address for every branch and index); a returned private key is never wrong; whenever unlocked, PrivKey() of any held '
+             'address of an account with a private key returns the key of its public key (fresh, cached, derived while locked, extended, loaded after '
+             'restart); imported private keys (scalar + compressed flag), imported PUBLIC keys, imported scripts incl. witness and taproot scripts (secret '
+             'ones refused while locked, public ones readable) come back unchanged, also later and after restart; C03_refuted_when_false for the pre-fix '
+             'extendAddresses. Tie to the code: real waddrmgr on bbolt, several seeds incl. 24 found by an offline search whose master / purpose / coin / '
+             'account / branch key has a leading zero byte (corpus/C03/legacy_rule.jsonl, replayed on every run), the four default scopes + a custom '
+             'scope, accounts 0..3 + imported xpub accounts with and without schema override, random histories incl. restarts, public and private '
+             'passphrase changes, n = 0 and the address-count bound, hardened branch/index requests; every returned address / public key / private key is '
+             'judged by an INDEPENDENT BIP32 implementation holding exactly ONE key per path (HMAC-SHA512 + btcec point arithmetic, the specified rule per '
+             'step; a key made with the other rule is the violation wrong_hardened_rule) with independent address encoders (base58check, bech32/bech32m, '
+             "BIP86 tweak, P2WSH, single-leaf taproot); 'can sign': from the 32 returned bytes the oracle checks the key is the specified child for the "
+             'REQUEST path, k*G = PubKey() and that public key encodes to Address() in the reported type; a second, independent wallet re-created from the '
+             'same seed (other passphrases, creation time, file) is compared address by address.',
+        note='Four defects found and repaired (fix: 37693ad extendAddresses, fc8a2e4 DeriveFromKeyPathCache, b387b8f last account of a new scope, 7aeeade '
+             'fingerprint of extended addresses); replays run first from corpus/C03. PARTIAL: derivation in bytes (HMAC-SHA512, secp256k1) and address '
+             'encodings are exercised through the independent oracle on every returned key, not proved; that every hardened step uses the specified one of '
+             "the two rules IS a theorem about the model and is exercised on seeds where the rules differ; 'can sign' checks the returned private key, no "
+             'signature is produced; invalid BIP32 children, a watching-only root manager and ConvertToWatchingOnly are not modelled; which legitimate '
+             'error class a REFUSED operation carries is not compared (a crash only matches a crash), the classes of PrivKey()/Script() are. Equivalent '
+             'rewrite, rightly quiet: Derive instead of DeriveNonStandard at the PURPOSE step (the master key is always held at full width). Observations, '
+             'not raised: NextExternal/InternalAddresses(ns, acct, 0) panics in its commit hook (no address was requested); DeriveFromKeyPath copies the '
+             "caller's DerivationPath.Account into the reported path unchecked (only visible for an untruthful request). Trusted: hdoracle with btcec "
+             'group operations, extractor/probe. No axioms.'),
 }
